@@ -577,6 +577,73 @@ func runC07(r *an.Run) {
 				o.FailAt(cd.ID+"#missing-"+k, cd.Where(cd.Body.Pos()), "createCommitDiff no longer sets CommitDiff.%s", k)
 			}
 		})
+
+	r.Obl("circuit-key-roles-and-full-trim", "ROLE",
+		"the circuit map's `pending` and `closed` sets are keyed by the incoming circuit key and `opened` by the outgoing key: no function indexes `opened` with an expression it also uses for `pending` or `closed`, an `.Incoming` / InKey expression never indexes `opened` and an `.Outgoing` / OutKey expression never indexes `pending` or `closed`; the start-up trim (trimAllOpenCircuits) visits every open channel: its loop is left only at the end or with an error, skipped channels `continue`",
+		"CloseCircuit and FailCircuit arbitrate through the same `closed` entry: keyed differently, a local failure and a remote response for one HTLC both win and two responses go upstream; a trim that stops early leaves uncommitted keystones open, so the re-forwarded add is dropped instead of failed back", 20,
+		func(o *an.Obl) {
+			roleOf := map[string]string{"pending": "in", "closed": "in", "opened": "out"}
+			n := 0
+			for _, f := range p.Funcs(false, "htlcswitch") {
+				if f.Lit != nil {
+					continue
+				}
+				used := map[string]map[string]string{} // key canon -> role -> where
+				var visit func(fn *an.Func)
+				visit = func(fn *an.Func) {
+					ast.Inspect(fn.Body, func(nd ast.Node) bool {
+						if fl, ok := nd.(*ast.FuncLit); ok {
+							visit(fn.LitFunc(fl))
+							return false
+						}
+						var m, key ast.Expr
+						switch x := nd.(type) {
+						case *ast.IndexExpr:
+							m, key = x.X, x.Index
+						case *ast.CallExpr:
+							if id, ok := x.Fun.(*ast.Ident); ok && id.Name == "delete" && len(x.Args) == 2 {
+								m, key = x.Args[0], x.Args[1]
+							}
+						}
+						if m == nil {
+							return true
+						}
+						sel, ok := ast.Unparen(m).(*ast.SelectorExpr)
+						if !ok {
+							return true
+						}
+						role, isMap := roleOf[sel.Sel.Name]
+						if !isMap || an.TypeID(fn.Info().TypeOf(sel.X)) != hs+"circuitMap" {
+							return true
+						}
+						n++
+						kc := fn.Canon(key)
+						kt := an.Text(key)
+						o.Site("%s: %s[%s]", fn.Where(nd.Pos()), sel.Sel.Name, kt)
+						if used[kc] == nil {
+							used[kc] = map[string]string{}
+						}
+						used[kc][role] = fn.Where(nd.Pos()) + " " + sel.Sel.Name
+						explicitIn := strings.Contains(kt, ".Incoming") || strings.Contains(kt, "InKey")
+						explicitOut := strings.Contains(kt, ".Outgoing") || strings.Contains(kt, "OutKey")
+						if (role == "out" && explicitIn) || (role == "in" && explicitOut) {
+							o.FailAt(f.ID+"#key-role-"+sel.Sel.Name, fn.Where(nd.Pos()), "%s is indexed with %s, a key of the other side of the circuit", sel.Sel.Name, kt)
+						}
+						return true
+					})
+				}
+				visit(f)
+				for kc, roles := range used {
+					if len(roles) == 2 {
+						o.FailAt(f.ID+"#key-both-roles", roles["in"], "%s uses the same key (%s) for the incoming-keyed sets (%s) and for the outgoing-keyed map (%s)", f.ID, kc, roles["in"], roles["out"])
+					}
+				}
+			}
+			if n < 20 {
+				o.FailAt("circuitMap#index-sites", "", "expected at least 20 keyed accesses to the circuit maps, found %d", n)
+			}
+			loopVisitsAll(o, p.Func(hs+"circuitMap.trimAllOpenCircuits"), `activeChannels|FetchAllOpenChannels`)
+		})
 }
 
 // closureCallTruth is the fact "a call of a local function value with an
